@@ -108,6 +108,10 @@ func main() {
 		}
 		monitorCase(mon, c, o)
 	}
+	if answers == nil {
+		drv = nil
+	}
+	runAdapters(f, res, drv)
 	if err := res.Write(f.Out); err != nil {
 		lib.Fatal(err)
 	}
@@ -242,6 +246,28 @@ func replay(f lib.Flags) int {
 	if err != nil || rp.Input == nil {
 		fmt.Println("replay: no concrete input in file (", rp.Kind, rp.Broken, ")")
 		return 2
+	}
+	var probe struct {
+		Trait string `json:"trait"`
+	}
+	if json.Unmarshal(b, &probe) == nil && probe.Trait != "" {
+		var ac acase
+		if err := json.Unmarshal(b, &ac); err != nil {
+			fmt.Println("replay: input is not a C17 adapter case:", string(b))
+			return 2
+		}
+		o := runAdapter(ac)
+		fmt.Printf("replay %s\n  -> %s %s\n", ac.key(), o.Verdict, o.Value)
+		m := lib.NewMonitor("replay", "")
+		adapterMonitor(m, ac, o)
+		for _, v := range m.Violations {
+			fmt.Printf("STILL FAILS %s: %s (expected %s, observed %s)\n", v.Signature, v.What, v.Expected, v.Observed)
+		}
+		if len(m.Violations) > 0 {
+			return 1
+		}
+		fmt.Println("replay: property holds on this input now")
+		return 0
 	}
 	c := tcase{PCancel: -1}
 	if err := json.Unmarshal(b, &c); err != nil || len(c.Order) != len(c.Behs) {
